@@ -745,6 +745,21 @@ impl<'s> Tokenizer<'s> {
                 self.advance(end);
                 let span = self.span(old_loc);
                 self.advance(self.block_start().len() + endraw);
+                // the end of the content is handled first: whether the endraw
+                // tag starts a line is decided by the content as written, and
+                // content without a line break shares its line with the raw tag.
+                result = match ws {
+                    Whitespace::Default if self.ws_config.lstrip_blocks => {
+                        let trimmed = lstrip_block(result);
+                        if trimmed.is_empty() {
+                            result
+                        } else {
+                            trimmed
+                        }
+                    }
+                    Whitespace::Remove => result.trim_end(),
+                    _ => result,
+                };
                 match ws_start {
                     Whitespace::Default if self.ws_config.trim_blocks => {
                         if result.starts_with('\r') {
@@ -759,11 +774,6 @@ impl<'s> Tokenizer<'s> {
                     }
                     _ => {}
                 }
-                result = match ws {
-                    Whitespace::Default if self.ws_config.lstrip_blocks => lstrip_block(result),
-                    Whitespace::Remove => result.trim_end(),
-                    _ => result,
-                };
                 self.handle_tail_ws(ws_next);
                 return Ok(ControlFlow::Break((Token::TemplateData(result), span)));
             }
